@@ -146,49 +146,118 @@ def run(F, R, tier):
     mk = F.fn("code::definitions::make")
     ro = F.fn("code::definitions::read_operands")
     if R.anchor("code::definitions::make", mk) and R.anchor("code::definitions::read_operands", ro):
-        enc = {}
-        for b in mk["mir"]["blocks"]:
+        # make and read_operands with the private helpers of their file written out in place (`def.encode(op, operands)`)
+        from .lib import codec as C_
+        same_file = lambda g_: (lambda c_: (F.fns.get(c_) or {}).get("file") != g_["file"])
+        mk_b = H.inline_helpers(F, H.body_of(mk), max_size=400, skip=same_file(mk))
+        ro_b = H.inline_helpers(F, H.body_of(ro), max_size=400, skip=same_file(ro))
+        # byte order of the 16-bit writer: from the instantiation the MIR records (write_u16::<BigEndian>) or the method (to_be_bytes)
+        orders, w8 = set(), False
+        for b in C_._with_private_helpers(F, mk)["mir"]["blocks"]:
             t = b["term"]
-            if t["k"] == "call" and t.get("callee_inst"):
-                ci = t["callee_inst"]
-                if "write_u16" in ci:
-                    enc[2] = "BigEndian" if "BigEndian" in ci else ci
-                if "write_u8" in ci:
-                    enc[1] = "u8"
+            if t["k"] != "call" or b.get("cleanup"):
+                continue
+            ci = (t.get("callee_inst") or "") + " " + (t.get("callee") or "")
+            if "write_u16" in ci:
+                orders.add("be" if "BigEndian" in ci else ("le" if "LittleEndian" in ci else ci))
+            if re.search(r"<impl u16>::to_be_bytes", ci):
+                orders.add("be")
+            if re.search(r"<impl u16>::to_(le|ne)_bytes", ci):
+                orders.add("le")
+            if "write_u8" in ci or re.search(r"Vec::<T, A>::push$", t.get("callee") or ""):
+                w8 = True
         R.ob("make-codec", "width 2 → write_u16::<BigEndian>, width 1 → write_u8",
-             enc == {2: "BigEndian", 1: "u8"}, str(enc), F.loc(mk))
+             orders == {"be"} and w8, "16-bit writers: %s; 8-bit writer: %s" % (sorted(orders), w8), F.loc(mk))
+
+        def writers(body):
+            """the byte writers in an arm: [(bits, the cast applied to the operand)]"""
+            out_ = []
+            for x in H.walk(body):
+                if x.get("k") != "mcall":
+                    continue
+                casts = [c_.get("ty") for c_ in H.walk(x.get("args", [])) if c_.get("k") == "cast"]
+                if x["m"] == "write_u16":
+                    out_.append((16, casts))
+                elif x["m"] == "write_u8":
+                    out_.append((8, casts))
+                elif x["m"] == "extend_from_slice" and any(y.get("k") == "mcall" and y["m"] in ("to_be_bytes", "to_le_bytes") for y in H.walk(x["args"])):
+                    out_.append((16 if "u16" in casts else (8 if "u8" in casts else 0), casts))
+                elif x["m"] == "push" and "Vec<u8>" in (x.get("recv_ty") or ""):
+                    out_.append((8, casts))
+            return out_
         # which match arm (literal width) reaches which writer
         wmap = {}
-        for m in H.find(H.body_of(mk), lambda x: x.get("k") == "match" and not H.is_try(x)):
+        for m in H.find(mk_b, lambda x: x.get("k") == "match" and not H.is_try(x)):
             for a in m["arms"]:
                 if a["pat"].get("k") == "plit":
-                    cs = [c["m"] for c in H.find(a["body"], lambda x: x.get("k") == "mcall" and x["m"].startswith("write_"))]
-                    casts = [x.get("ty") for x in H.find(a["body"], lambda x: x.get("k") == "cast")]
-                    wmap[a["pat"]["lit"]["v"]] = (cs, casts)
-        R.ob("make-codec", "arm per width", wmap.get(2) == (["write_u16"], ["u16"]) and wmap.get(1) == (["write_u8"], ["u8"]),
+                    wmap[a["pat"]["lit"]["v"]] = writers(a["body"])
+        R.ob("make-codec", "arm per width", wmap.get(2) == [(16, ["u16"])] and wmap.get(1) == [(8, ["u8"])],
              str(wmap), F.loc(mk))
+
+        def reader(e):
+            """("be"|"le", n bytes) for from_xx_bytes([ins[o], ins[o+1], ..]) / ("-", 1) for ins[o], widened to usize; else its text"""
+            e = H.strip(e)
+            widened = False
+            while e.get("k") == "cast" or (e.get("k") in ("call", "mcall") and H.last(e.get("callee") or "") in ("from", "into") and
+                                            len(([e["recv"]] if e.get("k") == "mcall" else []) + e.get("args", [])) == 1):
+                widened = widened or "usize" in (e.get("ty") or "")
+                e = H.strip(e["e"] if e.get("k") == "cast" else (([e["recv"]] if e.get("k") == "mcall" else []) + e.get("args", []))[0])
+
+            def off(i_):
+                i_ = H.strip(i_)
+                if H.is_local(i_):
+                    return (H.local_id(i_), 0)
+                if i_.get("k") == "bin" and i_["op"] == "+" and H.is_local(H.strip(i_["l"])) and H.strip(i_["r"]).get("k") == "lit":
+                    return (H.local_id(H.strip(i_["l"])), H.strip(i_["r"])["v"])
+                return None
+            if not widened:
+                return H.render(e)
+            if e.get("k") == "index":
+                return ("-", 1) if off(e["i"]) is not None else H.render(e)
+            cal = e.get("callee") or ""
+            if e.get("k") == "call" and re.search(r"<impl u16>::from_(be|le)_bytes$", cal) and H.strip(e["args"][0]).get("k") == "array":
+                es = [H.strip(x) for x in H.strip(e["args"][0])["es"]]
+                offs = [off(x["i"]) if x.get("k") == "index" else None for x in es]
+                bases = {H.local_id(H.strip(x["e"])) for x in es if x.get("k") == "index"}
+                if all(o is not None for o in offs) and len(bases) == 1 and len({o[0] for o in offs}) == 1 and [o[1] for o in offs] == list(range(len(offs))):
+                    return ("be" if "from_be" in cal else "le", len(offs))
+            return H.render(e)
         rmap = {}
-        for m in H.find(H.body_of(ro), lambda x: x.get("k") == "match" and not H.is_try(x)):
+        for m in H.find(ro_b, lambda x: x.get("k") == "match" and not H.is_try(x)):
             for a in m["arms"]:
                 if a["pat"].get("k") == "plit":
-                    rmap[a["pat"]["lit"]["v"]] = H.render(a["body"])
+                    rmap[a["pat"]["lit"]["v"]] = reader(a["body"])
         R.ob("read-operands-codec", "2 → from_be_bytes([ins[o], ins[o+1]]), 1 → ins[o]",
-             rmap.get(2) == "num::from_be_bytes([ins[offset], ins[(offset + 1)]]) as usize"
-             and rmap.get(1) == "ins[offset] as usize", str(rmap), F.loc(ro))
+             rmap.get(2) == ("be", 2) and rmap.get(1) == ("-", 1), str(rmap), F.loc(ro))
         # both iterate def.operand_widths
         for g, nm in ((mk, "make"), (ro, "read_operands")):
-            its = [H.render(x) for x in H.find(H.body_of(g), lambda x: x.get("k") == "field" and x["name"] == "operand_widths")]
+            its = [H.render(x) for x in H.find(mk_b if g is mk else ro_b, lambda x: x.get("k") == "field" and x["name"] == "operand_widths")]
             R.ob("width-list", "%s iterates operand_widths" % nm, len(its) >= 1, str(its[:3]), F.loc(g), nontrivial=False)
 
     # ---- (d) operand counts at emit / make sites -----------------------------
     n_sites = 0
     per = {}
+    # the encoder and the functions that hand their own (opcode, operands) parameters on to it unchanged (`emit`, a
+    # `make_checked` wrapper): a call of any of them is an encoding site; inside a forwarder the call is not one
+    make_like = {"code::definitions::make"}
+    forwards = {}
+    for _ in range(4):
+        for p, g in F.fns.items():
+            b = H.body_of(g)
+            if b is None or p in forwards or not g.get("hir"):
+                continue
+            pids = [pr.get("id") for pr in g["hir"]["params"] if pr.get("k") == "bind"]
+            for c in H.walk(b):
+                if c.get("k") in ("call", "mcall") and c.get("callee") in make_like and len(c.get("args", [])) >= 2 and \
+                        H.local_id(H.strip(c["args"][0])) in pids and H.local_id(H.strip(c["args"][1])) in pids:
+                    forwards[p] = c["callee"]
+                    make_like.add(p)
     for p, g in sorted(F.fns.items()):
         b = H.body_of(g)
         if b is None:
             continue
         for c in H.walk(b):
-            if c.get("k") not in ("call", "mcall") or c.get("callee") not in ("compiler::Compiler::emit", "code::definitions::make"):
+            if c.get("k") not in ("call", "mcall") or c.get("callee") not in make_like:
                 continue
             args = c["args"]
             n_sites += 1
@@ -203,7 +272,7 @@ def run(F, R, tier):
                     arr = H.strip(li[0])
             cnt = len(arr["es"]) if arr.get("k") == "array" else None
             if op is None:
-                if p == "compiler::Compiler::emit":
+                if forwards.get(p) == c["callee"] or (p in forwards and H.local_id(H.strip(args[0])) in [pr.get("id") for pr in g["hir"]["params"]]):
                     continue  # forwards its own parameters to make()
                 # an opcode chosen into a local first (`let opcode = match .. { .. => Opcode::X, .. }`): every value it can hold
                 a0 = H.strip(args[0])
@@ -256,12 +325,15 @@ def const_val(n):
     return None
 
 
-def range_checker_widths(g):
-    """{width: limit} for match arms `w => operand <= MAX_w` (or `>`): the widths a function range-checks"""
+def range_checker_widths(g, F=None):
+    """{width: limit} for match arms `w => operand <= MAX_w` (or `>`): the widths a function range-checks
+    (private helpers of its file read in place)"""
     b = H.body_of(g)
     out = {}
     if b is None:
         return out
+    if F is not None and any(c.get("k") in ("call", "mcall") and (F.fns.get(c.get("callee")) or {}).get("file") == g["file"] for c in H.walk(b)):
+        b = H.inline_helpers(F, b, max_size=200, skip=lambda c_: (F.fns.get(c_) or {}).get("file") != g["file"])
     for m in H.find(b, lambda x: x.get("k") == "match" and not H.is_try(x)):
         for a in m["arms"]:
             if a["pat"].get("k") != "plit" or a["pat"]["lit"]["lk"] != "int":
@@ -308,7 +380,8 @@ def truncation_guard(F, R, defs):
     on every call chain into make(), and a failed test must make Compiler::compile
     return an error (so the truncated encoding never reaches the VM)."""
     mk = F.fn("code::definitions::make")
-    casts = [x for x in H.find(H.body_of(mk), lambda x: x.get("k") == "cast" and x.get("ty") in ("u16", "u8"))]
+    mk_b = H.inline_helpers(F, H.body_of(mk), max_size=400, skip=lambda c_: (F.fns.get(c_) or {}).get("file") != mk["file"])
+    casts = [x for x in H.find(mk_b, lambda x: x.get("k") == "cast" and x.get("ty") in ("u16", "u8"))]
     R.ob("narrowing-casts-found", "make: o as u16 / o as u8", len(casts) == 2, "%d narrowing casts" % len(casts),
          F.loc(mk), nontrivial=False)
     # 1. range checkers: functions with per-width limits 2 -> 65535, 1 -> 255 over DEFINITIONS' width list
@@ -319,18 +392,23 @@ def truncation_guard(F, R, defs):
         w = {}
         for q, h in F.fns.items():
             if q == p or q.startswith(p + "::{closure"):
-                w.update(range_checker_widths(h))
+                w.update(range_checker_widths(h, F))
         if w:
             checkers[p] = w
+    def uses_widths(h):
+        b_ = H.body_of(h)
+        if b_ is None:
+            return False
+        b_ = H.inline_helpers(F, b_, max_size=200, skip=lambda c_: (F.fns.get(c_) or {}).get("file") != h["file"])
+        return any(x.get("k") == "field" and x["name"] == "operand_widths" for x in H.walk(b_))
     good = [p for p, w in checkers.items() if w.get(2) == 65535 and w.get(1) == 255
-            and any(x.get("k") == "field" and x["name"] == "operand_widths" for q, h in F.fns.items()
-                    if (q == p or q.startswith(p + "::{closure")) and H.body_of(h) is not None for x in H.walk(H.body_of(h)))]
+            and any(uses_widths(h) for q, h in F.fns.items() if (q == p or q.startswith(p + "::{closure")))]
     R.ob("operand-range-checker", "limits 2→65535, 1→255 over operand_widths", bool(good),
          "range checkers found: %s" % {H.last(k): v for k, v in checkers.items()}, "src/code/definitions.rs")
     # closures have no HIR of their own: their bodies are inlined in the parent, so look there too
     if not good:
         for p, g in F.fns.items():
-            w = range_checker_widths(g)
+            w = range_checker_widths(g, F)
             if w.get(2) == 65535 and w.get(1) == 255:
                 good.append(p)
     # 2. recorders: functions that call a checker and store a CompileError into a field of self on failure
@@ -382,7 +460,20 @@ def truncation_guard(F, R, defs):
                 Bm = M.Body(g)
                 gb = M.call_blocks(Bm, lambda t: t.get("callee") in guards)
                 mb = M.call_blocks(Bm, lambda t: t.get("callee") == "code::definitions::make")
-                free = M.reachable_avoiding(Bm, 0, gb, through_start=False)
+                # a path on which an operand error is already on record needs no further check (the program is rejected anyway):
+                # the edge taken when `self.<recorded field>.is_none()` is false / `.is_some()` is true counts as checked
+                rec_edges = set()
+                for bi_, blk_ in enumerate(Bm.blocks):
+                    t_ = blk_["term"]
+                    if t_["k"] != "switch" or t_.get("dty") != "bool":
+                        continue
+                    sy_ = M.show(Bm.sym_op(t_["d"], through_vars=True))
+                    for fld_ in set(recorders.values()):
+                        if re.search(r"is_none\(&\(?\*?self\)?\.%s\)$" % re.escape(fld_), sy_):
+                            rec_edges |= {tt for v_, tt in zip(t_["vals"], t_["ts"]) if v_ == 0}
+                        if re.search(r"is_some\(&\(?\*?self\)?\.%s\)$" % re.escape(fld_), sy_):
+                            rec_edges.add(t_["otherwise"])
+                free = M.reachable_avoiding(Bm, 0, set(gb) | rec_edges, through_start=False)
                 bad = sorted(b_ for b_ in mb if b_ in free)
                 if bad:
                     dom_ok, dom_det = False, " — but make() is reachable without the check (bb%s): the check is conditional" % bad[:3]
@@ -397,7 +488,23 @@ def truncation_guard(F, R, defs):
         leaves = H.return_leaves(H.body_of(cp))
         txt = H.render(H.body_of(cp))
         reads = [x for x in H.walk(H.body_of(cp)) if x.get("k") == "field" and x["name"] in flds]
-        errs = [x for x in H.walk(H.body_of(cp)) if x.get("k") == "ret" and "Err(" in H.render(x)]
+        # an Err result whose payload is what the field held: `if let Some(e) = self.f.take() { return Err(e) }`, or the
+        # `Some(e) => Err(e)` arm of a match on it
+        pay = {}
+        for x in H.walk(H.body_of(cp)):
+            cands = []
+            if x.get("k") == "match" and not H.is_try(x):
+                cands = [(a_["pat"], x["scrut"]) for a_ in x["arms"]]
+            elif x.get("k") == "let" and x.get("pat", {}).get("k") in ("ts", "struct") and x.get("init") is not None:
+                cands = [(x["pat"], x["init"])]
+            for pt, sc_ in cands:
+                if pt.get("k") in ("ts", "struct") and H.last(pt["res"].get("path") or "") == "Some":
+                    for q in H.walk(pt):
+                        if q.get("k") == "bind":
+                            pay[q["id"]] = sc_
+        errs = [x for x in H.walk(H.body_of(cp)) if x.get("k") == "call" and H.last(x.get("ctor") or "") == "Err" and x.get("args")
+                and H.local_id(H.strip(x["args"][0])) in pay
+                and any(y.get("k") == "field" and y["name"] in flds for y in H.walk(pay[H.local_id(H.strip(x["args"][0]))]))]
         ok = bool(flds) and bool(reads) and bool(errs)
         # the test must come after compile_program (all emission) on the way to Ok
         order = [H.last(c.get("callee") or "") for c in H.walk(H.body_of(cp)) if c.get("k") in ("call", "mcall")]
